@@ -1094,3 +1094,79 @@ func frameWriterEndParam(fn *ssa.Function) (idx int, isBool bool, k int64, ok bo
 	}
 	return -1, false, 0, false
 }
+
+// readsRequestBody: in (a call in the HTTP handler literal whose request
+// parameter is rPar) reads the request body: a reader of package io / ioutil
+// applied to r.Body, or a module function handed r.Body (or r) that does so.
+func readsRequestBody(in ssa.Instruction, rPar *ssa.Parameter, depth int) bool {
+	call, ok := in.(*ssa.Call)
+	if !ok {
+		return false
+	}
+	isBody := func(v ssa.Value) (body, req bool) {
+		core.OriginIs(v, func(o ssa.Value) bool {
+			o = core.Strip(o)
+			if core.ResolveFree(o) == ssa.Value(rPar) || o == ssa.Value(rPar) {
+				req = true
+			}
+			if base, fld, isF := core.FieldOf(o); isF && fld == "Body" && core.OriginIs(base, func(b ssa.Value) bool {
+				b = core.Strip(b)
+				return b == ssa.Value(rPar) || core.ResolveFree(b) == ssa.Value(rPar)
+			}) {
+				body = true
+			}
+			return false
+		})
+		return
+	}
+	ci := core.InfoOf(&call.Call)
+	for i, a := range call.Call.Args {
+		b, r := isBody(a)
+		if !b && !r {
+			continue
+		}
+		if b && (ci.Is("io.ReadAll") || ci.Is("io/ioutil.ReadAll") || ci.Is("io.ReadFull") || ci.Is("io.ReadAtLeast") || ci.Is("io.Copy") || ci.Is("io.CopyN")) {
+			return true
+		}
+		if ci.Static != nil && ci.Static.Blocks != nil && strings.HasPrefix(ci.Pkg, core.ModulePath) && depth < 2 && i < len(ci.Static.Params) {
+			par := ci.Static.Params[i]
+			found := false
+			core.Instrs(ci.Static, func(x ssa.Instruction) {
+				c2, ok := x.(*ssa.Call)
+				if !ok || found {
+					return
+				}
+				c2i := core.InfoOf(&c2.Call)
+				for _, a2 := range c2.Call.Args {
+					direct := core.OriginIs(a2, func(o ssa.Value) bool { return core.Strip(o) == ssa.Value(par) })
+					viaBody := false
+					if r {
+						bb, _ := func() (bool, bool) {
+							var body bool
+							core.OriginIs(a2, func(o ssa.Value) bool {
+								if base, fld, isF := core.FieldOf(core.Strip(o)); isF && fld == "Body" && core.OriginIs(base, func(b2 ssa.Value) bool { return core.Strip(b2) == ssa.Value(par) }) {
+									body = true
+								}
+								return false
+							})
+							return body, false
+						}()
+						viaBody = bb
+					}
+					if (b && direct || viaBody) && (c2i.Is("io.ReadAll") || c2i.Is("io/ioutil.ReadAll") || c2i.Is("io.ReadFull") || c2i.Is("io.ReadAtLeast") || c2i.Is("io.Copy") || c2i.Is("io.CopyN")) {
+						found = true
+					}
+				}
+			})
+			if found {
+				return true
+			}
+		}
+	}
+	if call.Call.IsInvoke() && ci.Name == "Read" {
+		if b, _ := isBody(call.Call.Value); b {
+			return true
+		}
+	}
+	return false
+}
